@@ -26,6 +26,19 @@ def fact_key(v):
     return None
 
 
+
+def spec_to_directive(spec, conversion=-1):
+    """a format-spec of str.format / an f-string as the %-directive that prints the same way (as far as the rules look:
+    integer presentation types d x X keep their type and zero-padded width, everything else is %s / %r)"""
+    if conversion == ord("r"):
+        return "%r"
+    ty = spec[-1:] if spec[-1:] in ("d", "x", "X") else "s"
+    if ty == "s":
+        return "%s"
+    body = spec[:-1].lstrip("<>=^+- #")
+    digits = "".join(ch for ch in body if ch.isdigit())
+    return "%" + (("0" + digits.lstrip("0")) if digits.startswith("0") and digits.lstrip("0") else digits) + ty
+
 class OpsMixin:
     # ------------------------------------------------------------------
     def eval(self, e, frame):
@@ -97,6 +110,16 @@ class OpsMixin:
                     parts.append(v)
         if static:
             return "".join(parts)
+        # the same thing as a %-format (one normal form for every spelling of "text with values put in")
+        fmt, fargs = "", []
+        for i, p in enumerate(e.values):
+            if isinstance(p, ast.Constant):
+                fmt += str(p.value).replace("%", "%%")
+            else:
+                spec = self.eval(p.format_spec, frame) if p.format_spec is not None else ""
+                fmt += spec_to_directive(spec if isinstance(spec, str) else "", p.conversion)
+                fargs.append(parts[i])
+        self.event("str-format", fmt=fmt, args=tuple(fargs), where=frame.where(e), node=e)
         s = SymStr(("fstr",) + tuple(p if isinstance(p, str) else self.name_of(p) for p in parts))
         s.parts = parts
         ln = 0
@@ -345,6 +368,26 @@ class OpsMixin:
             r = self.struct_model(fn.name, args, node, frame)
             if r is not None:
                 return r
+        if isinstance(fn, External) and fn.name in ("bisect.bisect_left", "bisect.bisect_right", "bisect.bisect") \
+                and len(args) == 2 and not kwargs:
+            seq = self.iterate(args[0], node, frame)
+            x = norm_int(args[1])
+            if seq is not None and isinstance(x, int) and all(isinstance(norm_int(e), int) for e in seq):
+                import bisect as _bisect
+                keys = [norm_int(e) for e in seq]
+                return (_bisect.bisect_left if fn.name.endswith("_left") else _bisect.bisect_right)(keys, x)
+            return Unknown("bisect over dynamic operands")
+        if isinstance(fn, External) and fn.name in ("importlib.util.find_spec", "importlib.import_module") and args \
+                and isinstance(args[0], str):
+            top = args[0].split(".")[0]
+            absent = top in getattr(self, "missing_modules", ())
+            if fn.name.endswith("find_spec"):
+                return None if absent else External("spec:" + args[0])
+            if absent:
+                from .standin import ExtExc
+                raise PyRaise(ExtExc("ModuleNotFoundError", ("ModuleNotFoundError", "ImportError", "Exception", "BaseException")),
+                              node, frame.where(node))
+            return External(args[0])
         if isinstance(fn, External) and fn.name in ("functools.reduce", "operator.or_", "operator.add", "operator.lshift"):
             # pure standard-library functions the codecs could plausibly be written with: evaluated, not opaque
             if fn.name == "functools.reduce":
@@ -366,13 +409,15 @@ class OpsMixin:
             return self.binop({"operator.or_": "|", "operator.add": "+", "operator.lshift": "<<"}[fn.name], args[0], args[1], node, frame)
         if isinstance(fn, External):
             self.event("external-call", name=fn.name, args=args, kwargs=kwargs, node=node,
-                       where=frame.where(node))
+                       where=frame.where(node), fn=fn)
             hook = getattr(self, "external_hook", None)
             if hook is not None:
                 r = hook(fn, args, kwargs, node, frame)
                 if r is not _ABSENT and r is not None:
                     return r
-            return External(fn.name + "()")
+            r = External(fn.name + "()")
+            r.origin_call = (fn.name, args, kwargs)
+            return r
         if isinstance(fn, Unknown):
             return Unknown("call of unknown: %s" % fn.reason)
         if isinstance(fn, SymAny):
@@ -552,6 +597,39 @@ class OpsMixin:
                 from .standin import ExtExc
                 raise PyRaise(ExtExc("BytesWarning", ("BytesWarning", "Warning", "Exception", "BaseException")), node, frame.where(node))
             return o == "!="
+        # two tuples / two lists: equal iff same length and pairwise equal (python compares element by element, in order)
+        if o in ("==", "!=") and type(a) is type(b) and type(a) in (tuple, list):
+            eq = len(a) == len(b)
+            if eq:
+                for x, y in zip(a, b):
+                    if x is y:
+                        continue
+                    if not self.compare(ast.Eq(), x, y, node, frame):
+                        eq = False
+                        break
+            return eq if o == "==" else not eq
+        # two byte strings: equal iff same length and the same bytes (decided where the bytes are known)
+        if o in ("==", "!=") and isinstance(a, (Buf, bytes)) and isinstance(b, (Buf, bytes)):
+            ca = list(a) if isinstance(a, bytes) else a.cells
+            cb = list(b) if isinstance(b, bytes) else b.cells
+            if ca is not None and cb is not None:
+                verdict = True
+                if len(ca) != len(cb):
+                    verdict = False
+                else:
+                    for x, y in zip(ca, cb):
+                        x, y = norm_int(x), norm_int(y)
+                        if isinstance(x, int) and isinstance(y, int):
+                            if x != y:
+                                verdict = False
+                                break
+                        elif x is y:
+                            continue
+                        elif verdict:
+                            verdict = None
+                if verdict is None:
+                    verdict = self.decide(self.describe_cond(node), node, frame)
+                return verdict if o == "==" else not verdict
         # identity-like equality of model objects
         if o in ("==", "!="):
             if isinstance(a, (ClassVal, FuncVal, ModuleVal, Instance, EnumVal, BoundMethod)) or \
@@ -569,8 +647,11 @@ class OpsMixin:
                     elif f[0] == "ne" and b in f[1]:
                         r = False
             if r is None and isinstance(a, External) and isinstance(b, External) \
-                    and getattr(a, "inode_gen", None) is not None and getattr(b, "inode_gen", None) is not None:
-                # two inode numbers of the stand-in's device node: equal iff the node was not replaced in between
+                    and getattr(a, "inode_gen", None) is not None and getattr(b, "inode_gen", None) is not None \
+                    and getattr(a, "stat_field", None) == getattr(b, "stat_field", None) \
+                    and (a.stat_field == "st_ino" or a.inode_gen == b.inode_gen):
+                # the same field of two stat results of the stand-in's device node: the same node has the same value; two
+                # inode numbers are equal iff the node was not replaced in between (other fields of a replaced node: either)
                 r = a.inode_gen == b.inode_gen
                 self.event("ext-compare", a=a, b=b, equal=r, where=frame.where(node), node=node)
             if r is None:
@@ -799,9 +880,10 @@ class OpsMixin:
         a = norm_int(a)
         b = norm_int(b)
         if isinstance(a, Unknown) or isinstance(b, Unknown):
-            return Unknown("binop on unknown (%s)" % (a.reason if isinstance(a, Unknown) else b.reason))
+            deps = tuple(d for x in (a, b) for d in (x.deps if isinstance(x, Unknown) else (x,) if isinstance(x, External) else ()))
+            return Unknown("binop on unknown (%s)" % (a.reason if isinstance(a, Unknown) else b.reason), deps)
         if isinstance(a, External) or isinstance(b, External):
-            return Unknown("arithmetic on a value from an external binding")
+            return Unknown("arithmetic on a value from an external binding", [x for x in (a, b) if isinstance(x, External)])
         if isinstance(a, SymAny) and op in ("<<", ">>", "&", "|", "^", "-", "//"):
             a = self.any_as_int(a)
         if isinstance(b, SymAny) and op in ("<<", ">>", "&", "|", "^", "-", "//"):
@@ -894,6 +976,38 @@ class OpsMixin:
         if isinstance(v, GenVal):
             return "generator"
         return type(v).__name__
+
+    def str_dot_format(self, fmt, args, kwargs, node, frame):
+        """'...{}...{:02X}'.format(...) with dynamic arguments, as the equivalent %-format"""
+        import string
+        out, fargs, auto = "", [], 0
+        try:
+            pieces = list(string.Formatter().parse(fmt))
+        except ValueError as ex:
+            raise PyRaise(Instance(self.bclasses["ValueError"], (str(ex),)), node, frame.where(node))
+        for lit, field, spec, conv in pieces:
+            out += lit.replace("%", "%%")
+            if field is None:
+                continue
+            head = field.split(".")[0].split("[")[0]
+            if head == "":
+                idx, auto = auto, auto + 1
+                val = args[idx] if idx < len(args) else None
+            elif head.isdigit():
+                val = args[int(head)] if int(head) < len(args) else None
+            else:
+                val = kwargs.get(head)
+            if val is None and not (head and not head.isdigit() and head in kwargs):
+                raise PyRaise(Instance(self.bclasses["IndexError"], ("Replacement index out of range for positional args tuple",)),
+                              node, frame.where(node))
+            if "." in field or "[" in field:
+                val = Unknown("attribute / item of a format argument")
+            out += spec_to_directive(spec or "", {"r": ord("r"), "s": ord("s"), "a": ord("a")}.get(conv, -1))
+            fargs.append(val)
+        self.event("str-format", fmt=out, args=tuple(fargs), where=frame.where(node), node=node)
+        s = SymStr(("fmt", fmt))
+        s.parts = [fmt] + list(fargs)
+        return s
 
     def str_format(self, fmt, arg, node, frame):
         args = arg if isinstance(arg, tuple) else (arg,)
